@@ -291,9 +291,9 @@ class C01(Check):
         "continuous targets and Monte-Carlo error bounds (replicates): only the exact expectation on finite spaces is decided",
         "adaptive schedules (their evidence estimate is consistent, not unbiased)",
         "the bijectivity and the reported Jacobian of the real transforms (C04; here the preconditioning map is an arbitrary bijection with an arbitrary Jacobian), the third-party kernels, EmceeSMC/BlackJAX variants",
-        "k > 2 support points, N > 2 particles (thorough: N = 3 for importance sampling), more than 2 tempering steps",
+        "beyond k = 2 support points, N = 2 particles, 2 tempering steps (thorough: N = 3 and k = 3 for importance sampling, N = 3 for the identity-kernel SMC run, a 4-step schedule; k = 3 with the SMC loop did not finish in 25 minutes and is not claimed)",
     ]
-    bounds = {"quick": {"k": 2, "N": 2, "schedules": ["importance", "smc fixed1", "smc fixed2"]}, "thorough": {"k": 2, "N": [2, 3], "schedules": ["importance", "smc fixed1", "smc fixed2", "smc fixed2 lazy kernel"]}}
+    bounds = {"quick": {"k": 2, "N": 2, "schedules": ["importance", "smc fixed1", "smc fixed2", "smc fixed2 lazy kernel", "smc fixed2 lazy kernel with preconditioning"]}, "thorough": {"k": [2, 3], "N": [2, 3], "schedules": ["importance", "smc fixed1", "smc fixed2", "smc fixed4", "lazy kernel", "lazy kernel with preconditioning"]}}
 
     def configs(self, tier):
         out = [
@@ -312,6 +312,8 @@ class C01(Check):
                 {"name": "is-N2-k3", "kind": "is", "N": 2, "k": 3, "D": 1, "uniform_q": "param", "timeout_ms": 300000},
                 {"name": "smc-fixed1-N2-lazy", "kind": "smc", "n_steps": 1, "N": 2, "k": 2, "D": 1, "lazy": True, "uniform_q": "param", "timeout_ms": 600000},
                 {"name": "smc-fixed2-N2-identity-constrained-q", "kind": "smc", "n_steps": 2, "N": 2, "k": 2, "D": 2, "lazy": False, "timeout_ms": 600000},
+                {"name": "smc-fixed2-N3-identity", "kind": "smc", "n_steps": 2, "N": 3, "k": 2, "D": 2, "lazy": False, "measure": False, "uniform_q": "param", "timeout_ms": 900000},
+                {"name": "smc-fixed4-N2-identity", "kind": "smc", "n_steps": 4, "N": 2, "k": 2, "D": 4, "lazy": False, "measure": False, "uniform_q": "param", "flat_prior": True, "timeout_ms": 900000},
             ]
         return out
 
